@@ -167,6 +167,16 @@ def plan(tier, seed):
             if des is not None:
                 for f in nullable:
                     cases.append({"spec": spec, "devs": [dev(file, inst, f, b" " * f["w"])], "label": f"{level} {des} blank {file}.{inst}.{f['key']}"})
+                # ... and in a footprint that crosses the antimeridian near a pole (values special for geographic code)
+                geo = {}
+                for i, f in enumerate(x for x in nullable if x["key"].endswith("longitude")):
+                    geo[f["key"]] = dev(file, inst, f, f"{(179.9, -179.8, -179.9, 179.8)[i % 4]:.4f}".rjust(f["w"]).encode())
+                for i, f in enumerate(x for x in nullable if x["key"].endswith("latitude")):
+                    geo[f["key"]] = dev(file, inst, f, f"{(89.9, 89.8, -89.9, 0.0)[i % 4]:.4f}".rjust(f["w"]).encode())
+                cases.append({"spec": spec, "devs": list(geo.values()), "label": f"{level} {des} footprint across the antimeridian"})
+                for f in nullable:
+                    if f["key"] in geo:
+                        cases.append({"spec": spec, "devs": [d for k, d in geo.items() if k != f["key"]] + [dev(file, inst, f, b" " * f["w"])], "label": f"{level} {des} blank {file}.{inst}.{f['key']} in a footprint across the antimeridian"})
     # the image file descriptor under ScanSAR file names (-F<n> full aperture, -B<n> SPECAN): what a blank header field
     # means must not depend on how the file is called
     for level, scan in (("1.1", "F1"), ("1.1", "B2"), ("1.5", "F3"), ("1.5", "B1")):
